@@ -158,20 +158,27 @@ def waitLoop (n : Nat) (done : List Nat) :
 
 def staleTask (s : Ev C O) : Bool := s.running.any (fun t => t.gen != s.loopGen)
 
-/-- `_await_at_least_n_tasks(n)` → the final `_tasks_done` (job ids in set-iteration order) -/
-def awaitN (s : Ev C O) (n : Nat) (waits : List (List Nat)) : Except Err (List Nat) :=
-  let n := if n > s.running.length then s.running.length else n
-  if n = s.running.length then
+/-- "If a user requests a batch size larger than the number of currently-running tasks,
+set n to the number of tasks running" -/
+def clampN (s : Ev C O) (n : Nat) : Nat := if n > s.running.length then s.running.length else n
+
+/-- `_await_at_least_n_tasks` after the clamp → the final `_tasks_done` (ids in set-iteration order) -/
+def awaitM (s : Ev C O) (m : Nat) (waits : List (List Nat)) : Except Err (List Nat) :=
+  if m = s.running.length then
+    -- `asyncio.wait(self._tasks_running, return_when="ALL_COMPLETED")`
     if s.running.isEmpty then .error .noJobs
     else if staleTask s then .error .loopClosed
     else match waits with
       | [w] => .ok w
       | _ => .error .envStuck
   else if staleTask s then .error .loopClosed
-  else match waitLoop n [] waits with
+  else match waitLoop m [] waits with
     | .ok (done, []) => .ok done
     | .ok (_, _ :: _) => .error .envStuck
     | .error e => .error e
+
+def awaitN (s : Ev C O) (n : Nat) (waits : List (List Nat)) : Except Err (List Nat) :=
+  awaitM s (clampN s n) waits
 
 /-- one iteration of the loop of `process_local_tasks_done` for a non-cancelled done task -/
 def processOne (p : Params C O) (via : Via) (s : Ev C O) (id : Nat) :
@@ -258,18 +265,19 @@ def isSuccess (p : Params C O) (j : JobRec C O) : Bool :=
 def lookupAll (jobs : List (JobRec C O)) (ids : List Nat) : List (JobRec C O) :=
   ids.filterMap (findJob jobs)
 
+/-- is the header known after this call?  regular format: the first record's keys, at once;
+HPO format: waits for the first non-failed job unless `flush` -/
+def dumpColumns (p : Params C O) (s : Ev C O) (flush : Bool) (recs : List (JobRec C O)) : Bool :=
+  if !p.hpo then true
+  else if s.startDumping then s.columns
+  else s.columns || flush || recs.any (isSuccess p)
+
 def dump (p : Params C O) (s : Ev C O) (flush : Bool) : Ev C O × Out C O :=
   if s.jobsDone.isEmpty then (s, .rows [])
-  else
-    let recs := lookupAll s.jobs s.jobsDone
-    let columns :=
-      if !p.hpo then true                                   -- regular format: first record's keys
-      else if s.startDumping then s.columns
-      else s.columns || flush || recs.any (isSuccess p)     -- waits for the first non-failed job
-    if columns then
-      ({ s with startDumping := true, columns := true, jobsDone := [], dumped := s.dumped ++ s.jobsDone },
-        .rows recs)
-    else (s, .rows [])
+  else if dumpColumns p s flush (lookupAll s.jobs s.jobsDone) then
+    ({ s with startDumping := true, columns := true, jobsDone := [], dumped := s.dumped ++ s.jobsDone },
+      .rows (lookupAll s.jobs s.jobsDone))
+  else (s, .rows [])
 
 /-! ### the transition function -/
 
@@ -327,6 +335,25 @@ def opOk (s : Ev C O) : Op C → Bool
 inductive Reach (p : Params C O) : Ev C O → Prop
   | init : Reach p init
   | step {s : Ev C O} (op : Op C) : Reach p s → opOk s op = true → Reach p (step p s op).1
+
+/-- the environment contract holds along the whole run of `ops` from `s` -/
+def opsOk (p : Params C O) : Ev C O → List (Op C) → Bool
+  | _, [] => true
+  | s, op :: ops => opOk s op && opsOk p (step p s op).1 ops
+
+def isDump : Op C → Bool
+  | .dump _ => true
+  | _ => false
+
+def submittedBy : Op C → List C
+  | .submit cfgs => cfgs
+  | _ => []
+
+/-- `Reach`, remembering every configuration submitted so far (in submission order) -/
+inductive Trace (p : Params C O) : Ev C O → List C → Prop
+  | init : Trace p init []
+  | step {s : Ev C O} {cs : List C} (op : Op C) :
+      Trace p s cs → opOk s op = true → Trace p (step p s op).1 (cs ++ submittedBy op)
 
 /-- `gather_other_jobs_done`: ids of the storage that are neither in flight nor gathered -/
 def otherIds (s : Ev C O) : List Nat :=
